@@ -298,6 +298,30 @@ def run_shard(spec, tier, seed):
             else:
                 res.count('groups_driven_by_several_lines')
                 res.add('multi_line_groups', f'{year}|{fname}|{g}')
+        # a number printed across two boxes (whole part | decimals, e.g. the ratio on Form 8606 line 10): for every value of
+        # the line the two boxes together read as the line's value rounded to the number of decimals printed
+        bytext = {}
+        for pf in fo.pdf_fields():
+            if isinstance(pf, PF.TextPDFField) and '.' not in pf.field_name:
+                bytext.setdefault(pf.field_name, []).append(pf)
+        for line, pfs in bytext.items():
+            fld = fields.get(f'{fo.name()}.{line}')
+            if len(pfs) != 2 or not isinstance(fld, F.FloatField) or getattr(fld, '_places', 2) <= 2:
+                continue
+            order = sorted(pfs, key=lambda q: tpl.fields[q.pdf_field_name].order if q.pdf_field_name in tpl.fields else 0)
+            for v in (0.0, 0.0004, 0.0005, 0.33333, 0.5, 0.92857, 0.9994, 0.9995, 0.99969, 0.99999, 1.0):
+                try:
+                    a, b = order[0].value(v, fld), order[1].value(v, fld)
+                except Exception as e:  # noqa
+                    V(fname, f'split-number-raises|{line}', f'line {line} = {v}: printing raised {type(e).__name__}: {e}')
+                    break
+                res.count('split_number_checks')
+                if not (str(a).isdigit() and str(b).isdigit()):
+                    break
+                want = f'{v:.{len(str(b))}f}'
+                if f'{a}.{b}' != want:
+                    V(fname, f'split-number-boxes-disagree|{line}', f'line {line} = {v} is printed as {a!r} | {b!r} (reads {a}.{b}); rounded to {len(str(b))} decimals it is {want}')
+                    break
         # label check.  A template label is trusted only if it fits the template's own
         # reading order: it must belong to the longest non-decreasing subsequence of
         # the labels of its page (the IRS accessibility text has typos of its own).
